@@ -85,14 +85,14 @@ PROPS = {
     'C17': dict(coq='Properties/C17.v', drivers=[_storm('C17', 'storm,cut,resume', 3, 60), _broker('C17', 60, 1500)], rule=STORM_RULE,
                 assumptions=['Ring/Writers.v models writers over the byte-granular ring; mutual exclusion of sync.Mutex assumed; wmu region and '
                              'ring roles come from T1']),
-    'C18': dict(coq='Properties/C18.v', drivers=[_storm('C18', 'storm,cut,teardown,churn', 3, 25, race=True)], rule=STORM_RULE + ' Run under the Go race detector.',
+    'C18': dict(coq='Properties/C18.v', drivers=[_storm('C18', 'storm,cut,teardown,churn,inproc', 3, 25, race=True)], rule=STORM_RULE + ' Run under the Go race detector.',
                 assumptions=['the map from shared-object classes to guarding mutexes, the exempt and helper function lists are hand-written; '
                              'aliasing is covered only through that map; the dynamic side is a detector (go build -race), not a proof']),
     'C19': dict(coq='Properties/C19.v', drivers=[_storm('C19', 'keepalive', 1, 3), _broker('C19', 40, 300)], rule=STORM_RULE,
                 assumptions=['Life/KeepAlive.v models the deadline arithmetic only; OS timers, the scheduler and net.Pipe deadlines are not modelled']),
     'C20': dict(coq='Properties/C20.v', drivers=[_client('C20', '|^STUCK')], rule=CLIENT_RULE, assumptions=CLIENT_ASSUME),
     'C12': dict(coq='Properties/C12.v', drivers=[_client('C12'), _broker('C12', 120, 2500)], rule=CLIENT_RULE + ' Plus the broker histories (identifiers of forwarded PUBLISH packets, PUBREL answers).', assumptions=CLIENT_ASSUME + BROKER_ASSUME),
-    'C01': dict(coq='Properties/C01.v', drivers=[_broker('C01', 120, 2500), _storm('C01', 'storm', 1, 30)], rule=BROKER_RULE, assumptions=BROKER_ASSUME),
+    'C01': dict(coq='Properties/C01.v', drivers=[_broker('C01', 120, 2500), _storm('C01', 'storm,inproc', 1, 30)], rule=BROKER_RULE, assumptions=BROKER_ASSUME),
     'C02': dict(coq='Properties/C02.v', drivers=[_broker('C02', 120, 2500)], rule=BROKER_RULE, assumptions=BROKER_ASSUME),
     'C05': dict(coq='Properties/C05.v', drivers=[_broker('C05', 120, 2500), _storm('C05', 'cut,teardown', 3, 40)], rule=BROKER_RULE, assumptions=BROKER_ASSUME),
     'C07': dict(coq='Properties/C07.v', drivers=[_broker('C07', 120, 2500), _storm('C07', 'ackeffect', 3, 30)], rule=BROKER_RULE, assumptions=BROKER_ASSUME),
